@@ -33,19 +33,22 @@ THEOREM_NOTES = ("see coq/Props/C02.v (16 theorems): [G] row 0 of A2.3 is A2.2; 
                  "tangents; unit vector has norm 1.  [B] A4.4 Leibniz identity for all k, l <= 3; A2.3 rows = Eq. 2.9 recursion for degree <= 5 and rows "
                  "sum to zero for degree <= 6 on a symbolic knot window (all multiplicity patterns); A3.4 = A3.2 for degree <= 3 and A3.8 (repaired) = "
                  "A3.6 on the triangle k+l <= order for bi-degree <= (2,2), every order 0..p+2 (includes order > degree)")
-LEVEL_TEXT = ("partial proof: general theorems cover the structure (order-0 entry = point; order > degree gives zero vectors for non-rational shapes in "
-              "both evaluator families), the quotient rule (A4.2 output satisfies sum_i C(k,i) w^(i) C^(k-i) = A^(k) for every order, hence is the "
-              "k-th derivative of A/w whenever its inputs are the derivatives of A and w; surface analogue A4.4 only for k, l <= 3), the hodograph "
-              "control-point formula (relative to the algebraic derivative Eq. 2.7) and normal orthogonal to both tangents / unit length over R. "
-              "'A2.3 computes the derivatives of the basis functions' is proved only algebraically (Eq. 2.9 recursion, degree <= 5, symbolic window, "
-              "not lifted to arbitrary spans) - the analytic link (is_derive) is NOT proved; agreement of the two evaluator families is proved only "
-              "for degree <= 3 (curves) and bi-degree <= (2,2) (surfaces).  That the evaluators' outputs equal the exact derivatives of the position "
-              "function for all degrees/orders, the hodograph objects (degree, knot vectors, evaluation) and tangent/normal values are tied only by "
-              "the sampled correspondence against the exact piecewise-polynomial Fraction oracle")
+LEVEL_TEXT = ("partial proof.  GENERAL (all degrees, knot vectors, multiplicities): the Eq. 2.9 recursion dN is order by order the TRUE analytic "
+              "(epsilon-delta, derivable_pt_lim) derivative of the Cox-de Boor functions inside every non-empty span and the right derivative at "
+              "knots (Proofs/DerivAnalytic.v); the single-function algorithm A2.5 returns these true derivatives for every degree; order-0 entry = "
+              "evaluated point; orders above the degree give zero vectors for non-rational shapes in both evaluator families; the rational quotient "
+              "rule A4.2 satisfies sum_i C(k,i) w^(i) C^(k-i) = A^(k) for every order (so it is the k-th derivative of A/w whenever its inputs are "
+              "the derivatives of A and w); hodograph control points; normal orthogonal to both tangents, unit length over R.  BOUNDED: A2.3 "
+              "(basis_function_ders) equals dN, hence the true derivatives, for degrees 1..5 on ALL knot vectors/spans/parameters (symbolic window by "
+              "field + window locality), and therefore the non-rational curve derivative vectors of the default evaluator are the true k-th "
+              "derivatives of the curve of C01 for degrees 1..5 and every order; A4.4 only for k, l <= 3; the two evaluator families agree for "
+              "degree <= 3 (curves) / bi-degree <= (2,2) (surfaces).  ONLY TIED BY CORRESPONDENCE against the exact piecewise-polynomial Fraction "
+              "oracle: degrees above 5 for A2.3, surfaces' derivative values, rational derivative values beyond the quotient identity, the hodograph "
+              "objects and tangent/normal values")
 LEVEL_NOTE = ("theorems are about the hand-written Gallina model (Model/Derivs.v, Model/Basis.v), tied to evaluators.py/helpers.py/operations.py "
               "by the sampled correspondence check; the oracle differentiates the exact polynomial pieces (interpolated from exact Cox-de Boor "
               "values) formally and divides power series for rational shapes, independently of every derivative formula of the library")
-TECHNIQUE = "Coq 8.16: induction + ring/field over R for the rational quotient rule; field on symbolic knot windows for A2.3; exact Fraction oracle"
+TECHNIQUE = "Coq 8.16: real analysis with derivable_pt_lim (Eq. 2.7/2.9 are the true derivatives, all degrees); induction + ring/field over R for the rational quotient rule; field on symbolic knot windows for A2.3; exact Fraction oracle"
 
 
 # ------------------------------------------------------------------ exact piecewise-polynomial oracle
